@@ -41,3 +41,24 @@ package absnfs
 // the record minus exactly the call header DecodeRPCCall consumed:
 //@ also recordMarkingConnIO.ReadCall
 //@ callassert bytes.NewReader#2 : [body-is-the-record-after-the-call-header] {C28} call != nil && len(arg0) == len(data) - 40 - roundup4(len(call.Credential.Body)) - roundup4(len(call.Verifier.Body))
+
+// ---- sixth round (C01 C02 C03 C06 C11 C22)
+// C03 - CreateWithContext trimmed white space off the name it was given, so the handler's look-before-create examined
+// one name and the backend created (and truncated) another. The object created is the one named by the arguments the
+// function was CALLED with (entry_name: a parameter is an assignable local):
+//@ also AbsfsNFS.CreateWithContext
+//@ callassert absfs.FS.Create : [creates-exactly-the-name-given] {C03, C07} arg1 == sanitized(dir.path, entry_name)
+// C02 - the handle table kept the node it already had for a path when the path was looked up again after the
+// object had been replaced by one of another type (file removed, directory made): Allocate#live (the table entry is
+// the node just handed in) is in C02's check as well.
+// C01 - SETATTR(size) applied the size only when it cut the file ("nothing to cut off otherwise"), so a file could no
+// longer be grown; and NFSNode.Truncate went through OpenFile(O_TRUNC) + File.Truncate, which empties the file before
+// resizing it. An NFS3_OK reply to a SETATTR that sets the size has issued the truncation to exactly that size on
+// that path, and a truncation is ONE backend request - the path-based Truncate - and nothing else that modifies:
+//@ func NFSNode.Truncate
+//@ prop C01 C03
+//@ abstract
+//@ modifies NFSAttrs.validUntil, extstate, mutlog, truncs, lasttruncsize, lasttruncpath, locks
+//@ ensures [one-truncation-by-path] mutlog == old(mutlog) + 1 && truncs == old(truncs) + 1 && lasttruncsize == size && lasttruncpath == n.path
+//@ also NFSProcedureHandler.handleSetattr
+//@ callassert bytes.Buffer.Bytes : [size-applied] {C01} sattr.SetSize ==> truncs > old(truncs) && lasttruncsize == sattr.Size && lasttruncpath == node.path
